@@ -137,6 +137,20 @@ func (i *Iface) Go() interface{} {
 		return &objM{i.Ops}
 	case "ptrnil":
 		return (*jstruct)(nil)
+	case "anon":
+		// an anonymous struct with field tags: its type name contains quotes and backslashes
+		return struct {
+			A string `json:"a,omitempty" db:"col\\a"`
+			N int64  `json:"n"`
+		}{string(i.S), i.I}
+	case "anonptr":
+		return &struct {
+			A string `json:"a" note:"say \"hi\""`
+		}{string(i.S)}
+	case "anonslice":
+		return []struct {
+			N int64 `json:"n,string"`
+		}{{i.I}, {-i.I}}
 	}
 	panic("lp: unknown iface kind " + i.K)
 }
@@ -783,6 +797,9 @@ func (s Settings) Apply() (restore func()) {
 			*dst = string(*src)
 		}
 	}
+	if s.GlobalLow > 0 {
+		zerolog.SetGlobalLevel(zerolog.Level(-s.GlobalLow))
+	}
 	set(&zerolog.LevelFieldName, s.LevelField)
 	set(&zerolog.MessageFieldName, s.MessageField)
 	set(&zerolog.TimestampFieldName, s.TimeField)
@@ -879,6 +896,7 @@ func (s Settings) Apply() (restore func()) {
 		zerolog.LevelTraceValue, zerolog.LevelDebugValue, zerolog.LevelInfoValue, zerolog.LevelWarnValue, zerolog.LevelErrorValue, zerolog.LevelFatalValue, zerolog.LevelPanicValue = o.lt, o.ld, o.li, o.lw, o.le, o.lfa, o.lp
 		zerolog.TimeFieldFormat, zerolog.DurationFieldUnit, zerolog.DurationFieldInteger, zerolog.FloatingPointPrecision = o.tfmt, o.du, o.di, o.fp
 		zerolog.ErrorMarshalFunc, zerolog.ErrorStackMarshaler, zerolog.InterfaceMarshalFunc, zerolog.TimestampFunc = o.em, o.sm, o.im, o.ts
+		zerolog.SetGlobalLevel(zerolog.TraceLevel)
 		setMu.Unlock()
 	}
 }
